@@ -289,12 +289,13 @@ pub fn close_position(
                 },
             )?;
 
-            swap_input(
+            // trade the configured fraction itself (a base-denominated swap of the position's closing trade):
+            // swapping the quoted notional back can miss the fraction by a quote unit's worth of base
+            swap_output(
                 &position.vamm,
-                side,
-                partial_close_notional,
+                direction_to_side(position.direction.clone()),
+                partial_close_amount,
                 Uint128::zero(),
-                true,
                 PARTIAL_CLOSE_POSITION_REPLY_ID,
             )?
         } else {
